@@ -329,6 +329,18 @@ def run_exp(sh, ctx):
 				pretty = rng.random() < 0.5
 				via = rng.choice(['path', 'fileobj'])
 				exporter = CSVResultsExporter() if fmt == 'csv' else (JSONResultsExporter(pretty=pretty) if fmt == 'json' else ResultsArchiveWriter(pretty=pretty))
+				if fmt == 'csv' and wi % 2 == 1:
+					# another exporter with formatting options of its own (the documented format_opts) lives and writes in the same process:
+					# the default exporter - the one made before it as well as one made afterwards - still writes the documented CSV
+					opts = [dict(delimiter='\t'), dict(delimiter=';', lineterminator='\r\n'), dict(quoting=csv.QUOTE_ALL, quotechar="'"), dict(dialect='excel-tab')][(wi // 2) % 4]
+					try:
+						other = CSVResultsExporter(**opts)
+						other.export(io.StringIO(newline=''), results)
+						ctx.count('csv_exports_after_an_exporter_with_other_format_options')
+					except Exception as e:
+						ctx.count(f'custom_format_exporter_raised:{type(e).__name__}')
+					if (wi // 2) % 2:
+						exporter = CSVResultsExporter()
 				path = ctx.workdir / f'w{wi}.{fmt}'
 				try:
 					if via == 'path':
@@ -448,7 +460,7 @@ def finalize(merged, tier, seed, inconclusive):
 		inconclusive.append('class never observed: params:chunksize=None')
 	if c.get('results_with_edge_distances', 0) == 0:
 		inconclusive.append('class never observed: results_with_edge_distances')
-	need = ['format:csv', 'format:json', 'format:archive', 'csv_ok', 'json_ok', 'archive_ok', 'feature:no-prediction', 'feature:unreportable-predicted-taxon', 'feature:failed-strict-result',
+	need = ['csv_exports_after_an_exporter_with_other_format_options', 'format:csv', 'format:json', 'format:archive', 'csv_ok', 'json_ok', 'archive_ok', 'feature:no-prediction', 'feature:unreportable-predicted-taxon', 'feature:failed-strict-result',
 	        'feature:warnings', 'feature:no-source-file', 'feature:with-source-file', 'feature:primary-not-closest', 'chars:comma', 'chars:dquote', 'chars:LF', 'chars:CRLF', 'chars:non-BMP',
 	        'chars:bare-CR', 'worlds_with_second_genome_set', 'via:fileobj', 'via:path', 'pretty:True', 'cli_commands']
 	for n in need:
